@@ -69,6 +69,7 @@ def lit_num(x):
 
 class C17(Check):
     pid = "C17"
+    timeout_is_violation = True     # "rendering always terminates": a case that still times out when re-run alone is a violation
     props = V.existing_props(["C17_print.v"])
     rule = ("families: doubles by random bit pattern and the classic hard cases, read from documents and computed by programs, at top "
             "level and nested (text matches -?[0-9]+(.[0-9]+)? and reads back bit-identical); print with 1-5 arguments of every kind; "
